@@ -128,7 +128,8 @@ namespace vm {
 template <class Alg> void run_job(const Plan &p, const std::vector<EventData> &evs) {
   trees().reset();
   out() << "JOB " << p.job << " " << p.tag << "\n"; out().flush();
-  Alg alg("query", nullptr);
+  Poisoned<Alg> holder;
+  Alg &alg = *holder.make("query", nullptr);
   try {
     StatusCode sc = alg.initialize();
     if (!sc.isSuccess()) { out() << "INIT FAILURE\n"; return; }
